@@ -2,6 +2,7 @@ import PEval.Properties.C03Core
 import PEval.Properties.C03Critical
 import PEval.Properties.Pipeline
 import PEval.Properties.KernelStatus
+import PEval.Properties.C03Eval
 /-!
 # C03 — per-frame TP/FP/FN/TN accounting conserves objects (root of the property)
 
@@ -19,6 +20,14 @@ import PEval.Properties.KernelStatus
 * `PEval/Properties/Pipeline.lean` section (v): `pipeline_tp_sound` — TP soundness stated on the pipeline's inputs
   (policy, pass/fail target and threshold lists, plane-distance table), refuted for the estimate-label keying
   (`estLabel_not_tp_sound`); `negative_label_choice`.
+* `PEval/Properties/C03Eval.lean` (namespace `PEval.C03`): the JOIN of the two halves above, stated over the composed
+  whole-frame model `FrameChange.evalFrame` (manager filter → score table from the boxes → matcher → critical verdicts
+  from the positions → `Pipeline.detectFrame`), where neither the critical flags nor `labelOk` / `thr` / `score` nor the
+  pairing are inputs: `eval_critical_sound` (+ `eval_counted_range`, `eval_critical_sound_toMap`), `eval_tp_sound`,
+  `eval_conservation` / `eval_accounting_perm` / `eval_critical_gts` / `eval_num_total` / `eval_tp_fp_exactly_one` /
+  `eval_matcher_wf` / `eval_history_conservation` under the single input hypothesis `ObjectsDistinct`,
+  `eval_gt_sites_agree`; refutations `eval_f2_not_critical_sound`, `eval_estLabel_not_tp_sound`,
+  `eval_dup_gt_breaks_conservation`; `gtConfOK_nonvacuous`.
 
 The core is a separate module only because the composition imports it (no import cycle); the audit
 of `./check C03` imports this root and therefore sees both.
